@@ -288,7 +288,8 @@ def main(argv=None):
                             glob_known = any(n in refuted for n in obs_of_fn)
                         if glob_known:
                             continue
-                        if all(n not in refuted and n not in unknown for n in obs_of_fn):
+                        fn_problem = any(k in ('unsupported', 'undecided') and 'encoder disagreement' not in m_ for k, fn, m_ in problems)
+                        if obs_of_fn and not fn_problem and all(n not in refuted and n not in unknown for n in obs_of_fn):
                             problems.append(('unsupported', e['name'], 'encoder disagreement: every obligation was discharged but the real '
                                              'code violates the contract on %s (%s)' % (json.dumps(e['input'])[:300], str(e.get('detail'))[:300])))
                         else:
@@ -373,6 +374,7 @@ def main(argv=None):
         'checker_cmd': 'python3-vt -m pyvc.check %s --tier %s' % (pid, tier),
         'trusted_base': trusted,
         'functions_under_contract': sorted(eng.functions_seen),
+        'helpers_executed_from_their_real_body_without_contract': sorted(getattr(eng, 'auto_inlined', set())),
         'obligations_per_function': per_func,
         'backends': backends,
         'solver_time_s': round(solver_time, 2),
